@@ -216,6 +216,36 @@ nd::harnesses! {
         assert!(drops() == 1);
     }
 
+    /// Over-aligned payload (the reference counts sit further in front of the value): an OPAQUE handle is
+    /// cloned on the Rust side, and the clone's published functions are then used by a C caller.
+    #[kani::unwind(4)]
+    fn c16_carc_view_overaligned_opaque_clone() {
+        use cglue::trait_group::{c_void, Opaquable};
+        #[repr(align(64))]
+        struct Big(u64);
+        let v: u64 = nd::any();
+        let base = Arc::new(Big(v));
+        let a: CArc<Big> = CArc::from(base.clone());
+        let o: CArc<c_void> = a.into_opaque();
+        let o2 = o.clone();
+        assert!(Arc::strong_count(&base) == 3);
+        let view: CArc_c_void = unsafe { transmute_copy(&o2) };
+        let orig: CArc_c_void = unsafe { transmute_copy(&o) };
+        assert!(view.instance as usize == Arc::as_ptr(&base) as usize);
+        assert!(view.clone_fn == orig.clone_fn && view.drop_fn == orig.drop_fn, "a clone carries the functions of the handle it was cloned from");
+        type P = Option<&'static c_void>;
+        let clone_f: unsafe extern "C" fn(P) -> P = unsafe { core::mem::transmute(view.clone_fn) };
+        let drop_f: unsafe extern "C" fn(P) = unsafe { core::mem::transmute(view.drop_fn) };
+        let as_p = |w: *const u8| -> P { unsafe { (w as *const c_void).as_ref() } };
+        let p3 = unsafe { clone_f(as_p(view.instance)) };
+        assert!(Arc::strong_count(&base) == 4, "the published clone function takes a reference on the real allocation");
+        unsafe { drop_f(p3) };
+        assert!(Arc::strong_count(&base) == 3);
+        drop(o2);
+        drop(o);
+        assert!(Arc::strong_count(&base) == 1 && base.0 == v);
+    }
+
     #[kani::unwind(6)] fn c16_slices_u8() { slices_view::<u8, 3>() }
     #[kani::unwind(6)] fn c16_slices_u64() { slices_view::<u64, 3>() }
     #[kani::unwind(6)] fn c16_slices_t3() { slices_view::<T3, 3>() }
